@@ -479,3 +479,21 @@ def broken_obligations(run, b, found_input):
     if found_input or run.violations:
         return
     run.violation("broken-obligation", {"problems": b.describe(), "make_log_tail": b.make_log[-1500:]}, no_input=True)
+
+
+# ---------------------------------------------------------------------- independent re-check (thorough tier)
+def coqchk(pid, timeout=1500):
+    """Re-check Props/<pid>.vo and everything it depends on with the independent checker; -> dict(ok, axioms, summary)."""
+    try:
+        p = subprocess.run(["timeout", str(timeout), "coqchk", "-silent", "-o", "-R", "theories", "NV", "NV.Props.%s" % pid],
+                           cwd=COQ, capture_output=True, text=True)
+    except OSError as e:
+        return {"ok": False, "axioms": None, "summary": "coqchk could not be started: %s" % e}
+    out = p.stdout + p.stderr
+    m = re.search(r"\* Axioms:(.*?)\n\s*\n\* Constants/Inductives relying on type-in-type:(.*?)\n\s*\n\* Constants/Inductives relying on unsafe \(co\)fixpoints:(.*?)\n\s*\n\* Inductives whose positivity is assumed:(.*?)\n", out, flags=re.S)
+    if p.returncode != 0 or not m:
+        return {"ok": False, "axioms": None, "summary": out[-600:]}
+    fields = [" ".join(x.split()) for x in m.groups()]
+    ok = all(f == "<none>" for f in fields)
+    return {"ok": ok, "axioms": fields[0], "type_in_type": fields[1], "unsafe_fixpoints": fields[2], "assumed_positivity": fields[3],
+            "summary": "coqchk -o NV.Props.%s: axioms %s; type-in-type %s; unsafe fixpoints %s; assumed positivity %s" % ((pid,) + tuple(fields))}
